@@ -50,6 +50,7 @@ type BScenario struct {
 	Drivers [][]BOp  `json:"drivers"`
 	Profile string   `json:"profile"`
 	Small   bool     `json:"small,omitempty"` // small enough for a preemption-bounded enumeration of schedules
+	setOnce bool
 }
 
 type bufExec struct {
@@ -138,7 +139,11 @@ func (l *loggingConsumer) Get(ctx context.Context) (interface{}, error) {
 	if err != nil {
 		l.x.r.Ret(l.g, "Get", "r", cls(err, ""), "v", 0)
 	} else {
-		l.x.r.Ret(l.g, "Get", "r", "ok", "v", v)
+		iv, ok := v.(int)
+		if !ok {
+			iv = -1 // not a value any producer supplied
+		}
+		l.x.r.Ret(l.g, "Get", "r", "ok", "v", iv)
 	}
 	return v, err
 }
@@ -567,6 +572,41 @@ func genBufScenario(rng *rand.Rand, profile string, mode string) *BScenario {
 		}
 		return "put"
 	}
+	// property-driven shape for C03: after a forced trim one consumer has fallen behind while two others are still
+	// active at different committed offsets; the cleaner is then evaluated many times (every Put wakes it; the order in
+	// which it sees the consumers varies): what the slowest ACTIVE consumer has not committed must stay readable
+	if profile == "retention" && rng.Intn(100) < 25 {
+		mx := 4 + rng.Intn(3)
+		tg := 2 + rng.Intn(2)
+		sc.Cleaner = BCleaner{Kind: "fixed", Max: mx, Target: tg, CooldownUs: []int{0, 0, 150}[rng.Intn(3)]}
+		sc.Drivers, sc.NCtx = nil, 1
+		// (the roles are dealt to the consumers in every creation order: the cleaner sees them in map order)
+		perm := rng.Perm(3)
+		cf, cs, ci := perm[0]+1, perm[1]+1, perm[2]+1 // fast, slow, idle
+		sc.Setup = []BOp{{K: "newc", C: 1}, {K: "newc", C: 2}, {K: "newc", C: 3}, {K: "put", N: mx}}
+		fast := []BOp{}
+		for i := 0; i < mx; i++ {
+			fast = append(fast, BOp{K: "get", C: cf, Ctx: 1})
+		}
+		fast = append(fast, BOp{K: "commit", C: cf})
+		slow := []BOp{}
+		for i := 0; i < mx-1; i++ {
+			slow = append(slow, BOp{K: "get", C: cs, Ctx: 1})
+		}
+		slow = append(slow, BOp{K: "commit", C: cs}, BOp{K: "get", C: cs, Ctx: 1}) // one more read, not committed
+		// the third consumer reads nothing: the forced trim leaves it behind
+		sc.Setup = append(sc.Setup, fast...)
+		sc.Setup = append(sc.Setup, slow...)
+		sc.Setup = append(sc.Setup, BOp{K: "put", N: 1}) // size > max: forced trim down to target
+		pokes := []BOp{}
+		for i := 0; i < 4+rng.Intn(5); i++ {
+			pokes = append(pokes, BOp{K: "put", N: 0}, BOp{K: "nop", N: rng.Intn(3)})
+		}
+		sc.Drivers = append(sc.Drivers, pokes)
+		sc.Drivers = append(sc.Drivers, []BOp{{K: "nop", N: rng.Intn(8)}, {K: "rollback", C: cs}, {K: "get", C: cs, Ctx: 1}, {K: "get", C: cs, Ctx: 1}, {K: "diff", C: cs}, {K: "size"}})
+		sc.Drivers = append(sc.Drivers, []BOp{{K: "nop", N: rng.Intn(8)}, {K: "get", C: ci, Ctx: 1}, {K: "diff", C: ci}, {K: "get", C: cf, Ctx: 1}})
+		return sc
+	}
 	// property-driven shape for C01: Puts whose context is cancelled while they are on their way (after the context check,
 	// queued on the buffer's lock, inside): a Put either fails and appends nothing, or appends and succeeds
 	if profile == "fifo" && rng.Intn(100) < 25 {
@@ -745,7 +785,8 @@ func genBufScenario(rng *rand.Rand, profile string, mode string) *BScenario {
 				ops = append(ops, BOp{K: "nop", N: rng.Intn(6)})
 			}
 			ops = append(ops, op)
-			if (profile == "reclaim" || profile == "retention") && rng.Intn(10) == 0 {
+			if (profile == "reclaim" || profile == "retention") && rng.Intn(10) == 0 && !sc.setOnce {
+				sc.setOnce = true // (one switch per scenario: several concurrent ones make the history expensive to explain)
 				// the cleaner configuration is replaced while the buffer is in use
 				cl := &BCleaner{Kind: "default"}
 				if rng.Intn(3) > 0 {
